@@ -9,8 +9,8 @@ import (
 	"sync"
 
 	"github.com/bufbuild/buf/private/bufpkg/bufimage"
-	"github.com/bufbuild/buf/private/bufpkg/bufmodule/bufmoduletesting"
 	"github.com/bufbuild/buf/private/bufpkg/bufimage/bufimageutil"
+	"github.com/bufbuild/buf/private/bufpkg/bufmodule/bufmoduletesting"
 	"github.com/bufbuild/verifharness/internal/bufx"
 	"github.com/bufbuild/verifharness/internal/reg"
 	"google.golang.org/protobuf/proto"
@@ -29,10 +29,10 @@ type caseRec struct {
 	LibImport bool `json:"libImport"`
 	// Optional: elements of imports that may survive an exclude-only filter although nothing needs them
 	Optional []string `json:"optional"`
-	Conflict      bool     `json:"conflict"`
-	Survive       []string `json:"survive"`
-	Shells        []string `json:"shells"`
-	Fields        []struct {
+	Conflict bool     `json:"conflict"`
+	Survive  []string `json:"survive"`
+	Shells   []string `json:"shells"`
+	Fields   []struct {
 		M      string   `json:"m"`
 		Fields []string `json:"fields"`
 	} `json:"fields"`
@@ -207,7 +207,7 @@ message Lonely {
 	"b.proto": `syntax = "proto2";
 package pkg;
 import "opts.proto";
-import "a.proto";
+import weak "a.proto";
 // c:pkg.WithOpt2
 message WithOpt2 {
   // c:pkg.WithOpt2.w2
@@ -488,6 +488,35 @@ func run(in []byte) (*reg.Result, error) {
 					}
 					if _, err := protodesc.NewFiles(fds); err != nil {
 						res.Violate("does-not-link/"+sig, caseInfo, "the filtered image does not link: %v", err)
+						continue
+					}
+					// import modifiers are kept: a weak (public) dependency of a surviving file still names a file that was a weak
+					// (public) import of it
+					modifiersOK := true
+					for _, f := range out.Files() {
+						fd := f.FileDescriptorProto()
+						of := base.GetFile(f.Path())
+						if of == nil {
+							continue
+						}
+						ofd := of.FileDescriptorProto()
+						check := func(kind string, idxs []int32, origIdxs []int32) {
+							orig := map[string]bool{}
+							for _, i := range origIdxs {
+								orig[ofd.Dependency[i]] = true
+							}
+							for _, i := range idxs {
+								if int(i) >= len(fd.Dependency) || !orig[fd.Dependency[i]] {
+									modifiersOK = false
+									res.Violate("import-modifier/"+kind+"/"+sig, caseInfo, "file %s: %s_dependency %v over the dependencies %v does not name the %s imports of the original (%v over %v)", f.Path(), kind, idxs, fd.Dependency, kind, origIdxs, ofd.Dependency)
+									return
+								}
+							}
+						}
+						check("weak", fd.WeakDependency, ofd.WeakDependency)
+						check("public", fd.PublicDependency, ofd.PublicDependency)
+					}
+					if !modifiersOK {
 						continue
 					}
 					// self-contained: every import the specification says a surviving file needs is still declared
